@@ -709,6 +709,61 @@ class Impl:
         except Exception as e:
             return f"X {type(e).__name__}"
 
+    def c_consts(self, a):
+        """Constant tables read off the real code (instruction map, class hierarchy, control signals, parser mnemonic
+        lists, ABI names, TOY tables, memory configuration)."""
+        what = a[0]
+        from architecture_simulator.isa.riscv.riscv_parser import RiscvParser
+        from architecture_simulator.isa.toy.toy_parser import ToyParser
+        from architecture_simulator.isa.toy import toy_instructions as ti
+        from architecture_simulator.settings.settings import Settings
+        order = ["add", "sub", "sll", "slt", "sltu", "xor", "srl", "sra", "or", "and", "addi", "slti", "sltiu", "xori", "ori", "andi", "slli", "srli", "srai",
+                 "lb", "lh", "lw", "lbu", "lhu", "jalr", "ecall", "ebreak", "sb", "sh", "sw", "beq", "bne", "blt", "bge", "bltu", "bgeu", "lui", "auipc", "jal", "fence",
+                 "csrrw", "csrrs", "csrrc", "csrrwi", "csrrsi", "csrrci", "mul", "mulh", "mulhu", "mulhsu", "div", "divu", "rem", "remu"]
+        extra = sorted(set(rvi.instruction_map) - set(order))
+
+        def ty(cls):
+            for c, n in ((ity.ShiftITypeInstruction, "shiftI"), (ity.MemoryITypeInstruction, "memI"), (ity.RTypeInstruction, "r"), (ity.ITypeInstruction, "i"),
+                         (ity.STypeInstruction, "s"), (ity.BTypeInstruction, "b"), (ity.UTypeInstruction, "u"), (ity.JTypeInstruction, "j"),
+                         (ity.FenceTypeInstruction, "fence"), (ity.CSRTypeInstruction, "csr"), (ity.CSRITypeInstruction, "csri")):
+                if issubclass(cls, c):
+                    return n
+            return "?"
+        names = [m for m in order if m in rvi.instruction_map] + extra
+        if what == "ops":
+            return ",".join(f"{m}:{ty(rvi.instruction_map[m])}" for m in names)
+        if what == "ctl":
+            out = []
+            for m in names:
+                i = make_instr(f"{m},7,0,0,0,0")
+                c = i.control_unit_signals()
+                cs = ",".join([optb(c.alu_src_1), optb(c.alu_src_2), opt(c.wb_src), optb(c.reg_write), optb(c.mem_read), optb(c.mem_write), optb(c.branch),
+                               optb(c.jump), opt(c.alu_op), optb(c.alu_to_pc)])
+                w = i.get_write_register()
+                bits = 8 if m in ("lb", "lbu", "sb") else (16 if m in ("lh", "lhu", "sh") else 32)
+                out.append(f"{m}={cs}|w={opt(w)}|b={bits}")
+            return ";".join(out)
+        if what == "asm":
+            P = RiscvParser
+            l = lambda xs: ",".join(xs)
+            abi = ",".join(f"{n}:{k}" for n, k in Settings().get()["abi_names"].items())
+            return (f"rrr={l(P._reg_reg_reg_mnemonics)}|i={l(P._normal_i_type_mnemonics)}|memi={l(P._mem_i_type_mnemonics)}|b={l(P._b_type_mnemonics)}"
+                    f"|s={l(P._s_type_mnemonics)}|u={l(P._u_type_mnemonics)}|csr={l(P._csr_mnemonics)}|csri={l(P._csr_i_mnemonics)}|abi={abi}")
+        if what == "toy":
+            T = ToyParser
+            opc = ",".join(f"{m}:{ti.instruction_map[m](**({'address': 0} if m in T._address_mnemonics else {})).opcode}" for m in T._address_mnemonics + T._no_address_mnemonics)
+            mn = ",".join(ToyInstruction.from_integer(k << 12).mnemonic for k in range(16))
+            return f"addr={','.join(T._address_mnemonics)}|noaddr={','.join(T._no_address_mnemonics)}|opc={opc}|mn={mn}"
+        if what == "mem":
+            from architecture_simulator.uarch.riscv.riscv_architectural_state import RiscvArchitecturalState
+            from architecture_simulator.uarch.toy.toy_architectural_state import ToyArchitecturalState
+            r = RiscvArchitecturalState().memory
+            t = ToyArchitecturalState().memory
+            ir = RiscvArchitecturalState().instruction_memory.get_address_range()
+            f = lambda m: f"{m.memory_file_values_width},{m.address_length},{b01(m.address_overflow)},{m.address_range.start},{m.address_range.stop}"
+            return f"riscv={f(r)}|toy={f(t)}|imem={ir.start},{ir.stop}"
+        return "bad-op"
+
     def c_rv_repr(self, a):
         return instr_repr_hex(make_instr(a[0]))
 
